@@ -2,7 +2,7 @@
 EXTENDS Gjkr
 
 AllKinds == {"eph.silent", "eph.missing", "eph.selfkey",
-             "sh.bad", "sh.undec", "sh.absent", "sh.none", "cm.none", "cm.wrong",
+             "sh.bad", "sh.badt", "sh.undec", "sh.absent", "sh.none", "cm.none", "cm.wrong",
              "acc.member", "acc.self", "acc.badid", "acc.wrongkey", "acc.silent",
              "pts.wrong", "pts.partial", "pts.silent",
              "rev.member", "rev.self", "rev.badid", "rev.wrongkey", "rev.silent",
@@ -119,6 +119,10 @@ B5 == {
   Scripted("b9-false-accusation", "asc", Acc8({E(5)})),
   Scripted("b9-share-bad-unreported", "asc", Sh5(4 :> "bad") @@ Acc8({E(5)})),
   Scripted("b9-share-undec-unreported", "asc", Sh5(4 :> "undec") @@ Acc8({E(5)})),
+  Scripted("b9-share-badt-unreported", "asc", Sh5(4 :> "badt") @@ Acc8({E(5)})),
+  Scripted("b5-share-badt", "asc", Sh5(4 :> "badt") @@ Acc4({E(5)})),
+  Scripted("b5-share-badt-to-honest", "asc", Sh5(1 :> "badt")),
+  Scripted("b11-share-badt-unreported", "asc", Sh5(4 :> "badt") @@ At1("A4", 5, <<>>) @@ Rev4({E(5)})),
   Scripted("b9-accused-silent-in-7", "asc", At1("A7", 5, <<>>) @@ Acc8({E(5)})),
   Scripted("b9-accused-wrong-points", "asc", At1("A7", 5, <<M(5, "pts", [cnt |-> "wrong", okFor |-> Members])>>) @@ Acc8({E(5)})),
   Scripted("b9-points-invalid-for-accuser", "asc", At1("A7", 5, <<Pts(5, {})>>) @@ Acc8({E(5)})),
